@@ -25,6 +25,7 @@ HARNESSES = {
     "unicode_operator_chars_not_xid": (["C10"], "axiom_operators_are_not_xid_{start,continue}: checked against unicode_ident's tables for the 33 operator characters"),
     "ieee_lt_asymmetric": (["C11", "C12"], "axiom_f_lt_asymmetric (smaller_unit's two strict comparisons)"),
     "char_is_ascii_digit_is_0_to_9": (["C10"], "assume_specification of char::is_ascii_digit in unit toknum, every char"),
+    "char_ascii_classes": (["C10"], "assume_specifications of char::is_ascii / is_ascii_alphanumeric / is_ascii_alphabetic in unit toknum, every char"),
     "ieee_integer_guard": (["C08"], "pretty_print integer branch: is_integer && |x| < 2^53 => exact i64 cast"),
 }
 
